@@ -8,6 +8,7 @@
 package h2
 
 import (
+	"context"
 	"crypto/tls"
 	"net"
 	"sort"
@@ -68,4 +69,19 @@ func verifYield(site string) {
 	if VerifYieldHook != nil {
 		VerifYieldHook(site)
 	}
+}
+
+// VerifDialContext, when non-nil, replaces the context-aware dial of the
+// upstream connection (a tree that dials with tls.Dial is served by VerifDial).
+var VerifDialContext func(ctx context.Context, network, addr string, cfg *tls.Config) (net.Conn, error)
+
+func verifDialContext(ctx context.Context, network, addr string, cfg *tls.Config) (net.Conn, error) {
+	if VerifDialContext != nil {
+		return VerifDialContext(ctx, network, addr, cfg)
+	}
+	if VerifDial != nil {
+		return VerifDial(network, addr, cfg)
+	}
+	d := tls.Dialer{Config: cfg}
+	return d.DialContext(ctx, network, addr)
 }
